@@ -12,7 +12,7 @@
 
    Known restriction, found by this work (see Refuted/C06_thin.v and the harness): for an image with a single row or a
    single column every box slice is empty, both maps are NaN everywhere; hence 2 <= rows, cols in C06_constant,
-   C06_mask_far_finite_partial and C06_no_blank_in_no_blank_out. *)
+   C06_mask_far_finite and C06_no_blank_in_no_blank_out. *)
 From Coq Require Import ZArith QArith Reals List Bool.
 From Aegean Require Import Gen.BaneSync Gen.BaneFilter Lib.Stats Model.BaneFilter Proofs.StatsProofs Proofs.BaneFilterProofs.
 Import ListNotations.
@@ -56,13 +56,16 @@ Theorem C06_mask_nan : forall g img y c, dm g = true -> img y c = None ->
   bane_bkg g img y c = None /\ bane_rms g img y c = None.
 Proof. exact bane_mask_nan. Qed.
 
-(* FULL statement of the property: a pixel farther than box/2 + grid (per axis) from all blank pixels is finite in both maps.
-   Proved: the background at that distance (near g 1); the noise at twice that distance (near g 2) - the noise of a pixel
-   uses the background of the pixels of its corner boxes, which in turn use their own corner boxes.  Whether box/2 + grid
-   also suffices for the noise is not proved; the harness searches the real code for a counterexample on every run. *)
-Theorem C06_mask_far_finite_partial : forall g img y c, real_geom g -> wf g -> (2 <= nr g)%Z -> (2 <= nc g)%Z -> in_image g y c ->
-  ((forall y' c', in_image g y' c' -> near g 1 y c y' c' -> img y' c' <> None) -> bane_bkg g img y c <> None)
-  /\ ((forall y' c', in_image g y' c' -> near g 2 y c y' c' -> img y' c' <> None) -> bane_rms g img y c <> None).
+(* masking on or off: a pixel with no blank pixel within box/2 + grid (per axis: near g 1) is finite in BOTH maps.
+   (sigmaclip drops non-finite samples, so a node is NaN only when its whole box is blank; the noise of a pixel needs, in
+   the box of each of its four nodes, one pixel whose background is finite - a pixel of its own cell, or its neighbour when
+   the last cell of the image is one pixel wide, whose own four boxes stay within box/2 + grid of the pixel.)
+   Sharper facts proved on the way (Proofs/BaneFilterProofs.v): pass_finite_nodes - a map is finite at a pixel as soon as
+   each of the four corner boxes of its cell holds ONE finite value; bkg_raw_finite_cell - for the background only the
+   rows [cell_lo - box/2, cell_hi + box/2) and the corresponding columns matter. *)
+Theorem C06_mask_far_finite : forall g img y c, real_geom g -> wf g -> (2 <= nr g)%Z -> (2 <= nc g)%Z -> in_image g y c ->
+  (forall y' c', in_image g y' c' -> near g 1 y c y' c' -> img y' c' <> None) ->
+  bane_bkg g img y c <> None /\ bane_rms g img y c <> None.
 Proof. exact bane_far_finite. Qed.
 
 Theorem C06_no_blank_in_no_blank_out : forall g img y c, real_geom g -> wf g -> (2 <= nr g)%Z -> (2 <= nc g)%Z -> in_image g y c ->
@@ -96,5 +99,5 @@ Proof. vm_compute. repeat split. discriminate. Qed.
 Print Assumptions C06_shift.
 Print Assumptions C06_scale.
 Print Assumptions C06_bounds.
-Print Assumptions C06_mask_far_finite_partial.
+Print Assumptions C06_mask_far_finite.
 Print Assumptions C06_sigmaclip_q_is_r.
